@@ -51,3 +51,35 @@ def replay(prop, path):
     src = "harness/%s.c" % args[0]
     exe = build.build_mc_exe(args[0], [src], atomic=var[0], rwlock=var[1], ipc=(args[0] == "sched_ipc"), ksim=(args[0] in ("sched_c09", "sched_c10")))
     return subprocess.call([exe] + args[1:])
+
+
+def conformance(acc, jobs, runs=30):
+    """POSIX-model conformance pass (thorough tier): the same harness bodies, free running on real glibc under the real
+    ThreadSanitizer; every observed outcome must be one the exploration produced.  Returns statistics for the evidence;
+    an outcome outside the explored set or a harness failure in free-running mode is an EngineError (model gap), TSan
+    reports are only counted (non-deciding cross-check)."""
+    import subprocess
+    stats = dict(free_runs=0, free_distinct_outcomes=0, free_tsan_reports=0, free_jobs=0)
+    env = dict(os.environ); env["TSAN_OPTIONS"] = "exitcode=66:halt_on_error=0:report_signal_unsafe=0"
+    for j in jobs:
+        model = acc.outcomes.get(j["name"])
+        if not model:
+            continue
+        key = (j["src"], j.get("atomic", "c11"), j.get("rwlock", "posix"))
+        exe = build.build_free_exe(os.path.basename(j["src"])[:-2], [j["src"]], atomic=key[1], rwlock=key[2])
+        hargs = [str(a) for a in j["args"]]
+        r = subprocess.run([exe, hargs[0], "-R", str(runs)] + hargs[1:], stdout=subprocess.PIPE, stderr=subprocess.PIPE, text=True, env=env, timeout=1200)
+        seen = set()
+        for ln in r.stdout.splitlines():
+            if ln.startswith("OUTCOME "):
+                seen.add(ln[8:]); stats["free_runs"] += 1
+            elif ln.startswith("TSAN"):
+                stats["free_tsan_reports"] += 1
+            elif ln.startswith("FAIL"):
+                raise common.EngineError("conformance pass: free-running %s failed on real glibc: %s" % (j["name"], ln[:300]))
+        stats["free_tsan_reports"] += r.stderr.count("WARNING: ThreadSanitizer")
+        missing = [o for o in seen if o not in model]
+        if missing:
+            raise common.EngineError("conformance pass: %s produced outcome(s) on real glibc that the exploration never produced: %r (explored: %r)" % (j["name"], missing[:3], model[:5]))
+        stats["free_distinct_outcomes"] += len(seen); stats["free_jobs"] += 1
+    return stats
